@@ -512,69 +512,102 @@ def _uncond_in_loop(pm, call, loop):
     return not [g for g, br in guard_chain(pm, call, loop) if isinstance(g, (ast.If, ast.Try))]
 
 
+def _saved_value(func, key):
+    """The expression a saver stores under ``key``: in a dict literal (``dict(key=...)`` / ``{'key': ...}``) or by ``x['key'] = ...``."""
+    from ..util import dict_literal_keys
+    for n in ast.walk(func.node):
+        d = dict_literal_keys(n) if isinstance(n, (ast.Dict, ast.Call)) else None
+        if d and key in d:
+            return d[key]
+        if isinstance(n, ast.Assign) and isinstance(n.targets[0], ast.Subscript) and isinstance(n.targets[0].slice, ast.Constant) \
+                and n.targets[0].slice.value == key:
+            return n.value
+    return None
+
+
+def _pass_over(func, expr):
+    """elementwise() that also follows a local list which is patched in place afterwards (``comps[i] = ...``)."""
+    from ..util import elementwise
+    ew = elementwise(expr, func.node)
+    if ew is not None and isinstance(ew.node, ast.Name):
+        defs = [st for st in walk_no_nested(func.node) if isinstance(st, ast.Assign) and len(st.targets) == 1
+                and isinstance(st.targets[0], ast.Name) and st.targets[0].id == ew.node.id]
+        if len(defs) == 1:
+            inner = elementwise(defs[0].value, func.node)
+            if inner is not None:
+                inner.filtered = inner.filtered or ew.filtered
+                inner.reordered = inner.reordered or ew.reordered
+                inner.funcs = inner.funcs + ew.funcs
+                return inner
+    return ew
+
+
+def _whole_pass(ctx, R, func, construct, what, expr, sources, need_func, detail_absent):
+    """Tri-state: ``expr`` is one unfiltered, order-preserving pass over one of ``sources`` applying ``need_func`` to each element."""
+    ew = _pass_over(func, expr) if expr is not None else None
+    good = ew is not None and ew.source in sources and not ew.filtered and not ew.reordered and \
+        (need_func is None or any(need_func in f for f in ew.funcs))
+    bad = expr is None or (ew is not None and (ew.filtered or ew.reordered or ew.source not in sources or
+                                               (need_func is not None and not any(need_func in f for f in ew.funcs))))
+    ctx.idiom(R, construct, what, accepted=good, absent=bad and not good,
+              detail_absent='%s: %s' % (detail_absent, 'the value is missing' if expr is None else 'found %r over `%s`' % (ew, norm(expr)[:120])),
+              shape=norm(expr)[:160] if expr is not None else '', where=func.where)
+    return good
+
+
 def rule_g(ctx, ix):
     """Savers list every element of the collections they save, in order; loaders put every saved element back, unconditionally."""
+    from ..util import enclosing
     R = 'C02.g'
     ctx.describe(R, 'collection savers/loaders cover every element, in order, unconditionally', floor=10)
     sd = ix.func('glue.core.state._save_data')
     obj = sd.params[0]
-    txt = unparse(sd.node)
-    ok = ('for c in %s._components' % obj) in txt and 'components=' in txt.replace(' ', '') or "['components']" in txt
-    ctx.idiom(R, sd.construct + ' components', 'every component is saved, in the dataset\'s own order',
-              accepted=('for c in %s._components' % obj) in txt, absent='components' not in txt or 'sorted(' in txt or 'main_components' in txt,
-              detail_absent='_save_data no longer lists the components by iterating data._components (order or completeness is lost)',
-              shape='components=...', where=sd.where)
-    ctx.idiom(R, sd.construct + ' subsets', 'every subset is saved', accepted=('for s in %s.subsets' % obj) in txt,
-              absent='subsets' not in txt, detail_absent='_save_data no longer lists every subset of the dataset', shape='subsets=...',
-              where=sd.where)
+    _whole_pass(ctx, R, sd, sd.construct + ' components', 'every component is saved, in the dataset\'s own order', _saved_value(sd, 'components'),
+                ('%s._components' % obj, '%s.components' % obj, '%s.component_ids()' % obj), '.id',
+                '_save_data no longer lists the components by one whole pass over data._components (order or completeness is lost)')
+    _whole_pass(ctx, R, sd, sd.construct + ' subsets', 'every subset is saved', _saved_value(sd, 'subsets'),
+                ('%s.subsets' % obj, '%s._subsets' % obj), '.id', '_save_data no longer lists every subset of the dataset')
     ld = ix.func('glue.core.state._load_data')
     rec = ld.params[0]
     pm = parent_map(ld.node)
-    adds = [c for c in calls_in(ld.node) if call_name(c) == 'add_component']
-    ok = False
-    for c in adds:
-        from ..util import enclosing
-        lp = enclosing(pm, c, (ast.For,))
-        if lp is not None and _uncond_in_loop(pm, c, lp) and len(c.args) == 2:
-            src = unparse(lp.iter)
-            ok = 'comps' in src
-    ctx.ob(R, ld.construct + ' components', 'every saved component is added back, unconditionally, in saved order', ok,
-           detail='_load_data no longer adds every saved component back (add_component is conditional or the loop does not run over '
-                  'the saved list)', where=ld.where)
-    comps = [st for st in walk_no_nested(ld.node) if isinstance(st, ast.Assign) and unparse(st.targets[0]) == 'comps']
-    ok = bool(comps) and ("%s['components']" % rec) in unparse(comps[0].value) and 'sorted' not in unparse(comps[0].value) \
-        and 'reversed' not in unparse(comps[0].value)
-    ctx.ob(R, ld.construct + ' order', 'the saved component list is walked in its saved order', ok,
-           detail='_load_data builds the component list as %s' % (unparse(comps[0].value) if comps else None), where=ld.where)
-    subs = [c for c in calls_in(ld.node) if call_name(c) == 'add_subset']
-    ok = False
-    for c in subs:
-        from ..util import enclosing
-        lp = enclosing(pm, c, (ast.For,))
-        ok = lp is not None and unparse(lp.iter) == "%s['subsets']" % rec and _uncond_in_loop(pm, c, lp)
-    ctx.ob(R, ld.construct + ' subsets', 'every saved subset is attached again', ok,
-           detail='_load_data no longer re-attaches every saved subset', where=ld.where)
+    for callee, key, what, nargs in (('add_component', 'components', 'every saved component is added back, unconditionally, in saved order', 2),
+                                     ('add_subset', 'subsets', 'every saved subset is attached again', 1)):
+        calls = [c for c in calls_in(ld.node) if call_name(c) == callee]
+        ok = False
+        shape = None
+        for c in calls:
+            lp = enclosing(pm, c, (ast.For,))
+            if lp is None or not _uncond_in_loop(pm, c, lp):
+                continue
+            ew = _pass_over(ld, lp.iter)
+            shape = ew
+            if ew is not None and ew.source == "%s['%s']" % (rec, key) and not ew.filtered and not ew.reordered:
+                ok = True
+        ctx.ob(R, ld.construct + ' ' + key, what, ok,
+               detail='_load_data no longer puts every saved entry of rec[%r] back: %s is not called unconditionally in one whole, '
+                      'order-preserving pass over the saved list (found: %r)' % (key, callee, shape), where=ld.where)
     sc = ix.func('glue.core.state._save_data_collection_4')
     dc = sc.params[0]
-    t = unparse(sc.node).replace(' ', '')
-    for key, src, what in (('data', 'map(context.id,%s)' % dc, 'every dataset'), ('links', '%s.external_links' % dc, 'every external link'),
-                           ('groups', '%s.subset_groups' % dc, 'every subset group')):
-        ctx.idiom(R, sc.construct + ' ' + key, '%s of the collection is saved' % what, accepted=('%s=list(' % key) in t and src in t,
-                  absent=(key + '=') not in t, detail_absent='_save_data_collection_4 no longer saves %s (key %r)' % (what, key),
-                  shape=key, where=sc.where)
+    for key, srcs, what in (('data', (dc,), 'every dataset'), ('links', ('%s.external_links' % dc, '%s._link_manager.external_links' % dc), 'every external link'),
+                            ('groups', ('%s.subset_groups' % dc, '%s._subset_groups' % dc), 'every subset group')):
+        _whole_pass(ctx, R, sc, sc.construct + ' ' + key, '%s of the collection is saved' % what, _saved_value(sc, key), srcs, '.id',
+                    '_save_data_collection_4 no longer saves %s (key %r) in one whole pass' % (what, key))
     lc = ix.func('glue.core.state._load_data_collection_4')
     rec = lc.params[0]
-    t = unparse(lc.node).replace(' ', '')
-    ctx.idiom(R, lc.construct + ' data', 'every saved dataset is put back into the collection',
-              accepted=("DataCollection(list(map(context.object,%s['data'])))" % rec) in t, absent=("%s['data']" % rec) not in t,
-              detail_absent='_load_data_collection_4 no longer builds the collection from rec[\'data\']', shape='DataCollection(...)', where=lc.where)
-    ctx.idiom(R, lc.construct + ' links', 'every saved link is set again', accepted=("forlinkin%s['links']" % rec) in t and 'set_links(links)' in t,
-              absent='set_links' not in t or ("%s['links']" % rec) not in t,
-              detail_absent='_load_data_collection_4 no longer restores the saved links through set_links', shape='links', where=lc.where)
-    ctx.idiom(R, lc.construct + ' groups', 'every saved subset group is restored and the group counter too',
-              accepted=("_subset_groups=list(map(context.object,%s['groups']))" % rec) in t and ("_sg_count=%s['subset_group_count']" % rec) in t,
-              absent=("%s['groups']" % rec) not in t or '_sg_count' not in t,
-              detail_absent='_load_data_collection_4 no longer restores the subset groups / the group counter', shape='groups', where=lc.where)
+    ctor = [c for c in calls_in(lc.node) if call_name(c) == 'DataCollection' and c.args]
+    _whole_pass(ctx, R, lc, lc.construct + ' data', 'every saved dataset is put back into the collection', ctor[0].args[0] if ctor else None,
+                ("%s['data']" % rec,), '.object', '_load_data_collection_4 no longer builds the collection from every entry of rec[\'data\']')
+    sl = [c for c in calls_in(lc.node) if call_name(c) == 'set_links' and c.args]
+    _whole_pass(ctx, R, lc, lc.construct + ' links', 'every saved link is set again', sl[0].args[0] if sl else None,
+                ("%s['links']" % rec,), '.object', '_load_data_collection_4 no longer restores every saved link through set_links')
+    grp = [st for st in walk_no_nested(lc.node) if isinstance(st, ast.Assign) and unparse(st.targets[0]).endswith('._subset_groups')]
+    _whole_pass(ctx, R, lc, lc.construct + ' groups', 'every saved subset group is restored', grp[0].value if grp else None,
+                ("%s['groups']" % rec,), '.object', '_load_data_collection_4 no longer restores every saved subset group')
+    cnt = [st for st in walk_no_nested(lc.node) if isinstance(st, ast.Assign) and unparse(st.targets[0]).endswith('._sg_count')]
+    ctx.ob(R, lc.construct + ' group counter', 'the group counter is restored from the record',
+           bool(cnt) and norm(cnt[0].value) == "%s['subset_group_count']" % rec,
+           detail='_load_data_collection_4 no longer restores the subset group counter from rec[\'subset_group_count\'] (found: %s)'
+                  % (norm(cnt[0].value) if cnt else None), where=lc.where)
 
 
 FALSY_DEFAULTS = ('[]', '{}', '()', "''", '""', '0', '0.0', 'None', 'False', 'set()', 'dict()', 'list()', 'tuple()')
